@@ -7,6 +7,7 @@ package gen
 
 import (
 	"fmt"
+	"regexp"
 	"sort"
 	"strings"
 
@@ -112,6 +113,11 @@ func (g *generator) ignoreComment() string {
 	}
 	return "// @ignore " + rng.Pick(g.r, codeLists)
 }
+
+// commented-out annotations and other-case keywords followed by the lowercase keyword: used as doc lines
+var nearMissDocs = []string{"// // @immutable", "// / @constructor NewNothing", "//\t// @packageonly nobody", "// // @testonly",
+	"// @Immutable is what the original says; the marker @immutable is not applied here", "// @TESTONLY (see @testonly)", "// @Constructor NewX - not @constructor NewX",
+	"// @PackageOnly svc, unlike @packageonly svc"}
 
 var nearMisses = []string{"// NOTE: the old line read: // @testonly (removed)", "// was: // @immutable", "// x // @packageonly svc", "// see @immutable for details", "// @Immutable", "// @immutablex", "/* @immutable */", "// TODO @constructor New", "//@testonlyish", "// @ packageonly", "// not @mutable", "// @IGNORE IMM01", "// @ignoreIMM01", "// x // @testonly"}
 
@@ -418,7 +424,11 @@ func (g *generator) typeDecl(t *gtype) []string {
 		if t.mutable {
 			cache = "\t// @mutable\n\tCache int\n"
 		}
-		body = t.name + " struct {\n\tX     int\n\tItems []int\n\tM     map[string]int\n" + cache + "}"
+		multi := "\tHits, Misses int\n"
+		if t.mutable && t.ctorSplit {
+			multi = "\t// counters\n\t// @mutable\n\tHits, Misses int\n"
+		}
+		body = t.name + " struct {\n\tX     int\n\tItems []int\n\tM     map[string]int\n" + cache + multi + "}"
 	}
 	d := strings.Join(doc, "\n")
 	if d != "" {
@@ -457,6 +467,7 @@ func (g *generator) candidates(p *gpkg, t *gtype, v, w string) []string {
 			"_ = []"+tr(-1)+"{{X: 1}}", "_ = []*"+tr(-1)+"{{X: 2}}", "_ = map[string]"+tr(-1)+`{"a": {}}`,
 			"_ = func(q "+tr(6)+") {}", "_ = func() *"+tr(7)+" { return nil }",
 			"_ = struct{ F "+tr(8)+" }{}",
+			v+".Misses++", v+".Hits = 1", w+".Misses += 2",
 		)
 	} else {
 		c = append(c, "_ = "+tr(0)+"(3)", "_ = new("+tr(1)+")", "_ = func(q "+tr(2)+") {}")
@@ -525,6 +536,7 @@ func (g *generator) body(p *gpkg, vars []scopeVar, extra []string, n int) []stri
 			continue
 		}
 		tag := g.nextTag()
+		raw := s
 		s = strings.ReplaceAll(s, "§", g.local(fmt.Sprint(g.tag)))
 		if strings.Contains(s, "\n") {
 			ls := strings.Split(s, "\n")
@@ -548,6 +560,25 @@ func (g *generator) body(p *gpkg, vars []scopeVar, extra []string, n int) []stri
 			}
 			continue
 		}
+		if g.o.Ignores && r.Chance(1, 8) {
+			// standalone @ignore inside the body of a function literal (with and without a following statement there)
+			inner := []string{g.ignoreComment(), s + " " + tag}
+			if r.Bool() && !strings.Contains(raw, "\n") {
+				tag2 := g.nextTag()
+				inner = append(inner, strings.ReplaceAll(raw, "§", g.local(fmt.Sprint(g.tag)))+" "+tag2)
+			}
+			opener := rng.Pick(r, []string{"func() {", "defer func() {", "go func() {"})
+			stmts = append(stmts, opener)
+			for _, l := range inner {
+				stmts = append(stmts, "\t"+l)
+			}
+			stmts = append(stmts, "}()")
+			if !strings.Contains(raw, "\n") {
+				tag3 := g.nextTag()
+				stmts = append(stmts, strings.ReplaceAll(raw, "§", g.local(fmt.Sprint(g.tag)))+" "+tag3)
+			}
+			continue
+		}
 		if g.o.NearMiss && r.Chance(1, 8) {
 			stmts = append(stmts, rng.Pick(r, nearMisses))
 		}
@@ -558,6 +589,8 @@ func (g *generator) body(p *gpkg, vars []scopeVar, extra []string, n int) []stri
 	}
 	return stmts
 }
+
+var blockComment = regexp.MustCompile(`/\*[^*]*\*/`)
 
 func indent(ls []string) string {
 	var b strings.Builder
@@ -604,6 +637,13 @@ func (g *generator) renderThin(m *Module, p *gpkg) {
 		q + ".Cache++ " + g.nextTag(),
 		"_ = " + q + ".X",
 	}
+	stmts = append(stmts,
+		"_ = "+ar+".Rec"+t.name+"{X: 1} "+g.nextTag(),
+		"_ = new("+ar+".Rec"+t.name+") "+g.nextTag(),
+		"var "+g.local("rz")+" "+ar+".Rec"+t.name+" "+g.nextTag(),
+		"_ = "+g.local("rz"),
+		"_ = "+ar+".Batch"+t.name+"{{X: 2}} "+g.nextTag(),
+	)
 	if t.tmeth {
 		stmts = append(stmts, q+".ResetForTest() "+g.nextTag(), ar+".Current"+t.name+"().ResetForTest() "+g.nextTag())
 	}
@@ -611,6 +651,8 @@ func (g *generator) renderThin(m *Module, p *gpkg) {
 		stmts = append(stmts, q+".Internal() "+g.nextTag(), "_ = "+ar+".Default"+t.name+".Internal "+g.nextTag())
 	}
 	b1 := "func ViaRelay() {\n" + indent(stmts) + "}"
+	// a third file whose only uses of the type are element literals with the type elided
+	m.Files[dir+"/thin_elided.go"] = "package thin\n\n" + imp(d0) + "\nvar Table = []" + a0 + "." + t.name + "{ " + g.nextTag() + "\n\t{X: 1}, " + g.nextTag() + "\n\t{X: 2}, " + g.nextTag() + "\n}\n\nvar ByName = map[string]*" + a0 + "." + t.name + "{\"a\": {X: 3}} " + g.nextTag() + "\n"
 	f0, f1 := 0, 1
 	if g.o.Reassign {
 		f0, f1 = g.lr.Intn(2), g.lr.Intn(2)
@@ -666,6 +708,7 @@ func (g *generator) renderPkg(m *Module, p *gpkg, decls []*gpkg) {
 			add("type A" + aliasKey(t) + " = " + direct)
 		}
 	}
+	add("type Free struct {\n\tX     int\n\tItems []int\n}")
 	// every visible type is referenced at least once in every rendering (so that alias declarations of the
 	// spelling variants do not introduce a first reference the base rendering lacks)
 	for i, t := range visible {
@@ -776,6 +819,9 @@ func (g *generator) renderPkg(m *Module, p *gpkg, decls []*gpkg) {
 		ref := p.alias[t.pkg] + "." + t.name
 		add("func Current" + t.name + "() *" + ref + " { return nil } " + g.nextTag())
 		add("var Default" + t.name + " = Current" + t.name + "() " + g.nextTag())
+		// re-exported under another name: users can instantiate the type without importing its package
+		add("type Rec" + t.name + " = " + ref + " " + g.nextTag())
+		add("type Batch" + t.name + " = []" + ref + " " + g.nextTag())
 	}
 	// extra statements: calls of annotated functions / methods visible from p
 	extraFor := func() []string {
@@ -846,6 +892,49 @@ func (g *generator) renderPkg(m *Module, p *gpkg, decls []*gpkg) {
 		}
 		return l
 	}
+	// probes (C06): the same statements over a type in its declaring package and in every direct importer, labelled
+	// /*@probe:<declaring path>.<type>:<k>*/ — outside constructors, outside @testonly functions, without @ignore
+	probe := func(t *gtype) {
+		lab := func(k int) string { return fmt.Sprintf("/*@probe:%s.%s:%d*/", t.pkg.path, t.name, k) }
+		tr := g.typeRef(p, t, -1)
+		var b []string
+		if t.kind == 0 {
+			b = []string{"v.X = 1 " + lab(0), "v.X++ " + lab(1), "v.Items[0] = 2 " + lab(2), "v.Cache = 3 " + lab(3), "v.Misses += 4 " + lab(4),
+				"_ = " + tr + "{} " + lab(5), "_ = new(" + tr + ") " + lab(6), "var z " + tr + " " + lab(7), "_ = z", "_ = []*" + tr + "{{X: 1}} " + lab(8)}
+			if t.tmeth {
+				b = append(b, "v.ResetForTest() "+lab(9))
+			}
+		} else {
+			b = []string{"_ = new(" + tr + ") " + lab(6), "var z " + tr + " " + lab(7), "_ = z"}
+		}
+		q := ""
+		if t.pkg != p {
+			q = p.alias[t.pkg] + "."
+		}
+		k := 20
+		for _, f := range t.pkg.funcs {
+			if f.ret == nil {
+				b = append(b, "_ = "+q+f.name+"() "+lab(k))
+			} else if f.ret == t {
+				b = append(b, q+f.name+"().X = 5 "+lab(k))
+			}
+			k++
+		}
+		add("func Probe" + aliasKey(t) + "(v *" + g.typeRef(p, t, 0) + ") {\n" + indent(b) + "}")
+	}
+	for _, t := range visible {
+		probe(t)
+	}
+	for _, im := range append([]*gpkg{p}, p.imports...) {
+		if im.hidden {
+			q := ""
+			if im != p {
+				q = p.alias[im] + "."
+			}
+			lab := func(k int) string { return fmt.Sprintf("/*@probe:%s.hidden:%d*/", im.path, k) }
+			add("func ProbeHidden" + strings.NewReplacer("/", "_", ".", "_").Replace(strings.TrimPrefix(im.path, "exp/")) + "() {\n" + indent([]string{q + "Default.X = 1 " + lab(0), q + "Current().X++ " + lab(1), q + "Default.Items[0] = 2 " + lab(2), q + "Current().Items = nil " + lab(3)}) + "}")
+		}
+	}
 	// user functions
 	nFn := 2 + r.Intn(3)
 	for i := 0; i < nFn; i++ {
@@ -903,6 +992,18 @@ func (g *generator) renderPkg(m *Module, p *gpkg, decls []*gpkg) {
 				rec = "Rec"
 			}
 			ex = append(ex, "var l§ "+rec+"; l§.X = 1", "lp§ := new("+rec+"); lp§.X++", "_ = "+rec+"{X: 2}", "var la§ []"+rec+"; la§[0].Items[0] = 3", "lq§ := &"+rec+"{}; lq§.Cache = 1")
+			// two locals of one name and different types in sibling scopes (the unannotated type first or second)
+			sh := g.local("sh")
+			ex = append(ex, "{ "+sh+" := &Free{}; "+sh+".X = 1 }", "{ "+sh+" := new("+rec+"); "+sh+".X = 2 }", "for _, "+sh+" := range []*Free{nil} { "+sh+".X = 3 }",
+				"for _, "+sh+" := range []*"+rec+"{nil} { "+sh+".X = 4 }", "{ "+sh+" := &Free{}; "+sh+".Items[0] = 5 }", "{ var "+sh+" "+rec+"; "+sh+".X++ }")
+			// methods and fields promoted through embedding (the receiver in the method's signature is still the annotated type)
+			ex = append(ex, "var w§ struct{ "+rec+" }; w§.X = 1", "var pw§ struct{ *"+rec+" }; pw§.Items[0] = 2", "var w§ struct{ "+rec+" }; w§.Mutate()")
+			if t0.pmeth {
+				ex = append(ex, "var w§ struct{ *"+rec+" }; w§.Internal()", "var w§ struct{ "+rec+" }; _ = w§.Internal", "type W§ struct{ "+rec+" }; _ = (*W§).Internal")
+			}
+			if t0.tmeth {
+				ex = append(ex, "var w§ struct{ *"+rec+" }; w§.ResetForTest()", "var w§ struct{ "+rec+" }; w§.ResetForTest()")
+			}
 		}
 		name := fmt.Sprintf("Use%d", i)
 		switch {
@@ -918,7 +1019,12 @@ func (g *generator) renderPkg(m *Module, p *gpkg, decls []*gpkg) {
 		if g.o.Ignores && r.Chance(1, 8) {
 			fdoc = g.ignoreComment() + "\n"
 		}
-		add(fdoc + "func " + name + "(" + strings.Join(params, ", ") + ") {\n" + indent(b) + "}")
+		sigTrail := ""
+		if g.o.Ignores && r.Chance(1, 8) {
+			// an @ignore trailing the signature line: its scope is that line only
+			sigTrail = " " + g.nextTag() + " // @ignore " + rng.Pick(r, []string{"TONL", "ALL", "PKGO", "IMM", "TONL01", "PKGO01", "CTOR"})
+		}
+		add(fdoc + "func " + name + "(" + strings.Join(params, ", ") + ") {" + sigTrail + "\n" + indent(b) + "}")
 	}
 	// a @testonly helper function whose body uses @testonly items (must stay silent)
 	if len(visible) > 0 && r.Chance(1, 2) && !g.o.NoAnnotations {
@@ -951,6 +1057,16 @@ func (g *generator) renderPkg(m *Module, p *gpkg, decls []*gpkg) {
 		add("// NOTE: the old line read: // @testonly (removed)\n// was: // @packageonly nobody\nfunc Legacy() int { return 1 }")
 		add("// @immutable\n// @constructor NewNothing\nvar NotAType = 1")
 		add("// @testonly\n\nfunc DetachedDoc() int { return 2 }")
+		for k, nd := range nearMissDocs {
+			add(fmt.Sprintf("%s\ntype NearDoc%d struct{ X int }\n\n%s\nfunc NearFn%d() int { return %d }", nd, k, nd, k, k))
+		}
+		{
+			var b []string
+			for k := range nearMissDocs {
+				b = append(b, fmt.Sprintf("var near%dv NearDoc%d %s", k, k, g.nextTag()), fmt.Sprintf("near%dv.X = NearFn%d() %s", k, k, g.nextTag()), fmt.Sprintf("_ = NearDoc%d{} %s", k, g.nextTag()))
+			}
+			add("func UseNearDocs() {\n" + indent(b) + "}")
+		}
 		add("/*\nBlockDoc is documented in a block comment.\n@immutable\n@constructor NewBlockDoc\n*/\ntype BlockDoc struct{ X int }")
 		add("/*\n@testonly\n@packageonly nobody\n*/\nfunc BlockFn() int { return 3 }")
 		add("/* @immutable */\n/* @testonly */\ntype BlockDoc2 struct{ X int }")
@@ -1010,8 +1126,9 @@ func (g *generator) renderPkg(m *Module, p *gpkg, decls []*gpkg) {
 		if len(imports) > 0 {
 			// only import what the file uses
 			var used []string
+			code := blockComment.ReplaceAllString(body, "")
 			for _, im := range p.imports {
-				if strings.Contains(body, p.alias[im]+".") {
+				if strings.Contains(code, p.alias[im]+".") {
 					for _, line := range imports {
 						if strings.Contains(line, "\""+im.path+"\"") {
 							used = append(used, line)
@@ -1020,6 +1137,10 @@ func (g *generator) renderPkg(m *Module, p *gpkg, decls []*gpkg) {
 				}
 			}
 			if len(used) > 0 {
+				if fi == 0 && g.xr.Chance(1, 3) {
+					// an import that carries no facts, listed ahead of the annotated packages
+					used = append([]string{"\t_ \"unsafe\""}, used...)
+				}
 				sb.WriteString("import (\n" + strings.Join(used, "\n") + "\n)\n\n")
 			}
 		}
@@ -1064,7 +1185,7 @@ func (g *generator) renderPkg(m *Module, p *gpkg, decls []*gpkg) {
 		body := "func helperInTest(v *" + g.typeRef(p, t, 0) + ") {\n" + indent(g.body(p, vars, nil, 4)) + "}\n"
 		imp := ""
 		for _, im := range p.imports {
-			if strings.Contains(body, p.alias[im]+".") {
+			if strings.Contains(blockComment.ReplaceAllString(body, ""), p.alias[im]+".") {
 				if p.alias[im] != im.name {
 					imp += fmt.Sprintf("import %s %q\n", p.alias[im], im.path)
 				} else {
@@ -1075,13 +1196,58 @@ func (g *generator) renderPkg(m *Module, p *gpkg, decls []*gpkg) {
 		if g.o.Spelling == 1 || g.o.Spelling == 2 {
 			// aliases live in the regular files
 		}
+		{
+			// package-level declarations in the test file that use annotated items
+			var pl []string
+			for _, c := range extraFor() {
+				if strings.HasPrefix(c, "_ = ") && !strings.Contains(c, "\n") && !strings.Contains(c, "§") && !strings.Contains(c, ";") {
+					pl = append(pl, "var _ = "+strings.TrimPrefix(c, "_ = ")+" "+g.nextTag())
+				}
+				if len(pl) >= 3 {
+					break
+				}
+			}
+			if t.kind == 0 {
+				pl = append(pl, "var sharedInTest = []"+g.typeRef(p, t, -1)+"{{X: 1}} "+g.nextTag(), "var fixtureInTest "+g.typeRef(p, t, -1)+" "+g.nextTag())
+			}
+			body += "\n" + strings.Join(pl, "\n") + "\n"
+			for _, im := range p.imports {
+				if strings.Contains(blockComment.ReplaceAllString(body, ""), p.alias[im]+".") && !strings.Contains(imp, "\""+im.path+"\"") {
+					if p.alias[im] != im.name {
+						imp += fmt.Sprintf("import %s %q\n", p.alias[im], im.path)
+					} else {
+						imp += fmt.Sprintf("import %q\n", im.path)
+					}
+				}
+			}
+		}
 		m.Files[dir+"/in_test.go"] = tb + imp + "\n" + body
-		ex := "package " + p.name + "\n\n" + imp + "\n" + strings.Replace(body, "helperInTest", "helperInGenTestdata", 1)
+		ex := "package " + p.name + "\n\n" + imp + "\n" + strings.NewReplacer("helperInTest", "helperInGenTestdata", "sharedInTest", "sharedInGen", "fixtureInTest", "fixtureInGen").Replace(body)
 		if r.Chance(1, 2) {
 			// annotations and @ignore inside an excluded file must be inert
 			ex += "\n// @immutable\n// @testonly\ntype ExcludedOnly struct{ Y int }\n\nfunc touchExcluded(e *ExcludedOnly) { e.Y = 1 }\n"
 		}
 		m.Files[dir+"/gen_testdata_x.go"] = ex
+	}
+	if g.o.TestFiles && len(visible) > 0 {
+		// generated code: a //line directive above the package clause names a file below an excluded path, which is
+		// then the file's name for exclusion and for positions alike
+		t := visible[0]
+		ref := g.typeRef(p, t, -1)
+		{
+			impl := ""
+			if t.pkg != p && g.o.Spelling != 1 && g.o.Spelling != 2 {
+				impl = fmt.Sprintf("import %q\n\n", t.pkg.path)
+				if p.alias[t.pkg] != t.pkg.name {
+					impl = fmt.Sprintf("import %s %q\n\n", p.alias[t.pkg], t.pkg.path)
+				}
+			}
+			body := "x := new(" + ref + ") " + g.nextTag() + "\n\t_ = x"
+			if t.kind == 0 {
+				body = "x := &" + ref + "{} " + g.nextTag() + "\n\tx.X = 1 " + g.nextTag()
+			}
+			m.Files[dir+"/yacc_out.go"] = "//line testdata/expr.y:2\npackage " + p.name + "\n\n" + impl + "func FromYacc() {\n\t" + body + "\n}\n"
+		}
 	}
 	if g.o.TestFiles {
 		// an excluded file that sorts first in its package and that nothing refers to
